@@ -7,10 +7,10 @@ def run(tier):
     c = Check("C06", tier)
     c.build()
     if c.quick():
-        jobs = [("kv6-q", kv.consts(pats="Pats2", invals=("x",), exps=("none", "s1", "s3"), maxnow=4))]
+        jobs = [("kv6-q", kv.consts(pats="Pats3", invals=("x",), exps=("none", "s1", "s3"), maxnow=4))]
     else:
         jobs = [("kv6-t", kv.consts(pats="Pats5", invals=("empty", "x"), exps=("none", "s1", "s3", "far", "past"), maxnow=4)),
-                ("kv6-t3", kv.consts(keys="Keys3", pats="Pats2", invals=("x",), exps=("none", "s1", "s3"), maxnow=4, many=2))]
+                ("kv6-t3", kv.consts(keys="Keys3", pats="Pats3", invals=("x",), exps=("none", "s1", "s3"), maxnow=4, many=2))]
     emits = parallel([lambda n=n, cs=cs: kv.emit(c, n, cs, workers=6, timeout=1500) for n, cs in jobs], max_workers=3)
     c.exhaustive = True
     for e in emits:
